@@ -3,6 +3,7 @@
 from __future__ import annotations
 
 import ast
+import copy
 from dataclasses import dataclass, field
 from typing import Dict, List, Optional, Tuple, Union
 
@@ -313,8 +314,16 @@ class DecoderFacts:
         self.ctx = ctx
         py = pyfacts(ctx)
         self.mods: Dict[str, Module] = {}
+        from .normalise import normalise_module
+
         for name, rel in DECODERS.items():
-            self.mods[name] = py.mod(rel)
+            m0 = py.mod(rel)
+            # the rules read a flattened copy (small helpers inlined, module-level tables re-stated in the function)
+            m = copy.copy(m0)
+            m.tree = normalise_module(m0.tree)
+            m.functions = {n.name: n for n in m.tree.body if isinstance(n, ast.FunctionDef)}
+            m.assigns = dict(m0.assigns)
+            self.mods[name] = m
         ctx.units["decoders"] = len(self.mods)
 
     def fn(self, dec: str, name: str) -> ast.FunctionDef:
@@ -333,3 +342,41 @@ class DecoderFacts:
 
 def decoderfacts(ctx: Ctx) -> DecoderFacts:
     return ctx.engine("decoderfacts", DecoderFacts)
+
+
+class IntEvalError(Exception):
+    pass
+
+
+def int_eval(e: ast.AST, env: Dict[str, int]):
+    """Value of a pure integer / boolean expression over constants (the checker's own evaluator for boundary cases)."""
+    if isinstance(e, ast.Constant) and isinstance(e.value, (int, bool)):
+        return e.value
+    if isinstance(e, ast.Name):
+        if e.id in env:
+            return env[e.id]
+        raise IntEvalError(f"unknown name {e.id}")
+    if isinstance(e, ast.UnaryOp):
+        v = int_eval(e.operand, env)
+        return {ast.USub: lambda x: -x, ast.UAdd: lambda x: x, ast.Not: lambda x: not x, ast.Invert: lambda x: ~x}[type(e.op)](v)
+    if isinstance(e, ast.BinOp):
+        a, b = int_eval(e.left, env), int_eval(e.right, env)
+        try:
+            return {
+                ast.Add: lambda: a + b, ast.Sub: lambda: a - b, ast.Mult: lambda: a * b, ast.FloorDiv: lambda: a // b, ast.Mod: lambda: a % b,
+                ast.LShift: lambda: a << b, ast.RShift: lambda: a >> b, ast.BitAnd: lambda: a & b, ast.BitOr: lambda: a | b, ast.BitXor: lambda: a ^ b,
+            }[type(e.op)]()
+        except (KeyError, ZeroDivisionError, ValueError) as ex:
+            raise IntEvalError(str(ex))
+    if isinstance(e, ast.IfExp):
+        return int_eval(e.body if int_eval(e.test, env) else e.orelse, env)
+    if isinstance(e, ast.BoolOp):
+        vals = [int_eval(v, env) for v in e.values]
+        return all(vals) if isinstance(e.op, ast.And) else any(vals)
+    if isinstance(e, ast.Compare) and len(e.ops) == 1:
+        a, b = int_eval(e.left, env), int_eval(e.comparators[0], env)
+        return {ast.Eq: a == b, ast.NotEq: a != b, ast.Lt: a < b, ast.LtE: a <= b, ast.Gt: a > b, ast.GtE: a >= b}[type(e.ops[0])]
+    if isinstance(e, ast.Call) and isinstance(e.func, ast.Name) and e.func.id in ("int", "abs", "bool", "min", "max") and not e.keywords:
+        args = [int_eval(a, env) for a in e.args]
+        return {"int": int, "abs": abs, "bool": bool, "min": min, "max": max}[e.func.id](*args)
+    raise IntEvalError(f"expression {type(e).__name__} not modelled")
